@@ -6,6 +6,7 @@ import (
 	"errors"
 	"io"
 	"regexp"
+	"sync/atomic"
 	"time"
 
 	"github.com/scrapli/scrapligo/util"
@@ -41,10 +42,10 @@ func processReadBuf(rb []byte, searchDepth int) []byte {
 	return prb
 }
 
-func (c *Channel) read() {
-	// capture this open's signalling channels and exited flag, a later Open replaces them
-	done, readLoopDone, exited := c.done, c.readLoopDone, c.readLoopExited
-
+// read is the read loop of one open: done, readLoopDone and exited are that open's signalling
+// channels and exited flag (handed over by Open: a later Open replaces the fields, possibly before
+// this goroutine gets to run).
+func (c *Channel) read(done, readLoopDone chan struct{}, exited *atomic.Bool) {
 	defer func() {
 		exited.Store(true)
 
